@@ -345,8 +345,20 @@ ICUFormatNumberFunctor::cacheDecimalFormat(
     DecimalFormatCacheListType::value_type&     theEntry = 
         m_decimalFormatCache.front();
 
+    // Copy the symbols first.  If that fails, the formatter still
+    // belongs to the caller, so it must not be left in the cache.
+    try
+    {
+        theEntry.m_DFS = theDFS;
+    }
+    catch(...)
+    {
+        m_decimalFormatCache.pop_front();
+
+        throw;
+    }
+
     theEntry.m_formatter = theFormatter;
-    theEntry.m_DFS = theDFS;
 }
 
 
